@@ -139,28 +139,28 @@ func (t *memoryThrottler) getEntries(client string, action string) []throttleEnt
 	return entries
 }
 
-func (t *memoryThrottler) setEntries(client string, action string, entries []throttleEntry) {
+// pruneEntries removes the entries of the client / action that are older than
+// "maxBruteforceAge". The list is read, filtered and stored while holding the
+// lock, so failed attempts that are recorded concurrently are not lost.
+func (t *memoryThrottler) pruneEntries(client string, action string, now time.Time) {
 	t.mu.Lock()
 	defer t.mu.Unlock()
 
 	toThrottle := getThrottleIp(client)
 	actions := t.clients[toThrottle]
-	if len(actions) == 0 {
-		if len(entries) == 0 {
-			return
-		}
-
-		actions = make(map[string][]throttleEntry)
-		t.clients[toThrottle] = actions
+	entries := actions[action]
+	if len(entries) == 0 {
+		return
 	}
 
-	if len(entries) > 0 {
-		actions[action] = entries
-	} else {
+	newEntries := t.filterEntries(entries, now)
+	if newl := len(newEntries); newl == 0 {
 		delete(actions, action)
 		if len(actions) == 0 {
 			delete(t.clients, toThrottle)
 		}
+	} else if newl != len(entries) {
+		actions[action] = newEntries
 	}
 }
 
@@ -286,12 +286,8 @@ func (t *memoryThrottler) CheckBruteforce(ctx context.Context, client string, ac
 	}
 
 	// Remove old entries.
-	newEntries := t.filterEntries(entries, now)
-	if newl := len(newEntries); newl == 0 {
-		t.setEntries(client, action, nil)
-		return doThrottle, nil
-	} else if newl != l {
-		t.setEntries(client, action, newEntries)
+	if newl := len(t.filterEntries(entries, now)); newl != l {
+		t.pruneEntries(client, action, now)
 	}
 
 	return doThrottle, nil
